@@ -43,9 +43,15 @@ static void list_units(const std::string& tier)
     for (const char* sh : {"S1","S2","S3","S4","S5"}) for (const char* r=RULES_SET; *r; ++r)
         printf("sr=S,shape=%s,ra=%c,pairs=all,order=fwd\n", sh, *r);
     for (const char* r=RULES_SET; *r; ++r) printf("sr=S,shape=S6,ra=%c,pairs=%s,order=fwd\n", *r, th?"all":"fam");
-    for (const char* sh : {"S1","S2"}) for (const char* r=RULES_REL; *r; ++r)
-        printf("sr=R,shape=%s,ra=%c,pairs=%s,order=fwd\n", sh, *r, (th || !strcmp(sh,"S1")) ? "all" : "fam");
-    for (const char* r=RULES_REL; *r; ++r) printf("sr=R,shape=S3,ra=%c,pairs=%s,order=fwd\n", *r, th?"fam":"fam1");
+    for (const char* r=RULES_REL; *r; ++r) printf("sr=R,shape=S1,ra=%c,pairs=all,order=fwd\n", *r);
+    if (!th) {
+        for (const char* r=RULES_REL; *r; ++r) printf("sr=R,shape=S2,ra=%c,pairs=fam0,order=fwd\n", *r);
+        for (const char* r=RULES_REL; *r; ++r) printf("sr=R,shape=S3,ra=%c,pairs=famfam,order=fwd\n", *r);
+    } else {
+        for (const char* r=RULES_REL; *r; ++r) for (int op=0; op<3; op++) printf("sr=R,shape=S2,ra=%c,pairs=all,order=fwd,op=%d\n", *r, op);
+        for (const char* r=RULES_REL; *r; ++r) for (int op=0; op<3; op++) printf("sr=R,shape=S3,ra=%c,pairs=fam0,order=fwd,op=%d,distinct=1\n", *r, op);
+        for (const char* r=RULES_REL; *r; ++r) printf("sr=R,shape=S3,ra=%c,pairs=famfam,order=fwd\n", *r);
+    }
     // complement and cross
     for (const char* sh : {"S1","S2","S3","S4","S5","S6"}) printf("sr=S,shape=%s,mode=unary\n", sh);
     for (const char* sh : {"S1","S2","S3"}) printf("sr=R,shape=%s,mode=unary\n", sh);
@@ -53,9 +59,9 @@ static void list_units(const std::string& tier)
     if (th) {
         for (const char* sh : {"S3","S4","S5"}) for (const char* r=RULES_SET; *r; ++r) for (const char* o : {"rev","clr"})
             printf("sr=S,shape=%s,ra=%c,pairs=all,order=%s\n", sh, *r, o);
-        for (const char* r=RULES_REL; *r; ++r) for (const char* o : {"rev","clr"}) printf("sr=R,shape=S2,ra=%c,pairs=fam,order=%s\n", *r, o);
-        for (const char* r=RULES_SET; *r; ++r) printf("sr=S,shape=S7,ra=%c,pairs=fam,order=fwd\n", *r);
-        for (const char* r=RULES_SET; *r; ++r) printf("sr=S,shape=S8,ra=%c,pairs=fam1,order=fwd\n", *r);
+        for (const char* r=RULES_REL; *r; ++r) for (const char* o : {"rev","clr"}) printf("sr=R,shape=S2,ra=%c,pairs=fam0,order=%s\n", *r, o);
+        for (const char* r=RULES_SET; *r; ++r) printf("sr=S,shape=S7,ra=%c,pairs=fam0,order=fwd\n", *r);
+        for (const char* r=RULES_SET; *r; ++r) printf("sr=S,shape=S8,ra=%c,pairs=famfam,order=fwd\n", *r);
     }
 }
 
@@ -93,8 +99,11 @@ static void run_binary(const std::map<std::string,std::string>& spec)
         objs[key]=u; return u;
     };
     std::vector<unsigned long> fam;
-    { Kind k; k.rel=rel; k.range='b'; fam = structured_family(k,s,{0,1}, pairs=="fam1" ? 1 : 2);
-      if (pairs=="fam1") { /* restrict to rule (1) with one point + single-variable */ } }
+    { Kind k; k.rel=rel; k.range='b';
+      // fam: rules (1) with <=2 points, (2), (3);  fam0: rule (1) with <=1 point only;  famfam: B x B with B = fam
+      fam = (pairs=="fam0") ? structured_family(k,s,{0,1},1,false) : structured_family(k,s,{0,1},2,true); }
+    const int only_op = (int)spec_int(spec,"op",-1);
+    const bool only_distinct = spec_int(spec,"distinct",0)!=0;
     ctx.counters["universe"] = (long)U;
     ctx.counters["family"] = (long)fam.size();
 
@@ -103,44 +112,48 @@ static void run_binary(const std::map<std::string,std::string>& spec)
         g_patnames.push_back(p.name());
         Universe* A = get_obj(p.ra,p.oa); Universe* B = get_obj(p.rb,p.ob); Universe* C = get_obj(p.rc,p.oc);
         if (!A->F || !B->F || !C->F) continue;
+        if (only_distinct && (A->F==B->F || A->F==C->F || B->F==C->F)) continue;
         for (int op=0; op<3 && !ctx.stop; op++) {
+            if (only_op>=0 && op!=only_op) continue;
             binary_operation* bop = get_bop(op==0?UNION():op==1?INTERSECTION():DIFFERENCE(), A->F,B->F,C->F, OPN[op]);
             if (!bop) continue;
             dd_edge r(C->F);
             auto one = [&](unsigned long i, unsigned long j) {
-                if (!case_lazy(fmt_pair, op, (long)pi, (long)i, (long)j, 0)) return;
-                if (order=="clr") { A->F->removeAllComputeTableEntries(); }
                 unsigned long e = op==0 ? (i|j) : op==1 ? (i&j) : (i & ~j & MASK);
-                try {
-                    bop->compute(A->e[i], B->e[j], r);
-                } catch (MEDDLY::error er) { violation("op-error","threw %s (%s:%u)", er.getName(), er.getFile(), er.getLine()); return; }
-                if (r != C->e[e]) {
-                    Table x; read_eval(r,C->k,s,x);
-                    violation(tab_eq(C->k,x,C->table(e)) ? "noncanonical-result" : "wrong-result", "result reads [%s], expected f%lu = [%s]", tab_str(x).c_str(), e, tab_str(C->table(e)).c_str());
+                // every sub-case takes a case number whether or not it is executed, so numbering is the same in replays
+                if (case_lazy(fmt_pair, op, (long)pi, (long)i, (long)j, 0)) {
+                    if (order=="clr") { A->F->removeAllComputeTableEntries(); }
+                    bool threw=false;
+                    try {
+                        bop->compute(A->e[i], B->e[j], r);
+                    } catch (MEDDLY::error er) { violation("op-error","threw %s (%s:%u)", er.getName(), er.getFile(), er.getLine()); threw=true; }
+                    if (!threw && r != C->e[e]) {
+                        Table x; read_eval(r,C->k,s,x);
+                        violation(tab_eq(C->k,x,C->table(e)) ? "noncanonical-result" : "wrong-result", "result reads [%s], expected f%lu = [%s]", tab_str(x).c_str(), e, tab_str(C->table(e)).c_str());
+                    }
+                    if (e!=i && e!=j && e!=0 && e!=MASK) note_nontrivial(hmix(hmix(op,pi), i*U+j));
                 }
-                if (e!=i && e!=j && e!=0 && e!=MASK) note_nontrivial(hmix(hmix(op,pi), i*U+j));
                 // aliasing of the result edge with an operand edge (in-place use)
-                if (A->F==C->F) {
-                    if (!case_lazy(fmt_pair, op, (long)pi, (long)i, (long)j, 1)) return;
+                if (A->F==C->F && case_lazy(fmt_pair, op, (long)pi, (long)i, (long)j, 1)) {
                     dd_edge t(A->e[i]);
-                    bop->compute(t, B->e[j], t);
-                    if (t != C->e[e]) violation("wrong-result-alias", "with the result edge aliasing operand a: result differs from f%lu", e);
+                    try { bop->compute(t, B->e[j], t); if (t != C->e[e]) violation("wrong-result-alias", "with the result edge aliasing operand a: result differs from f%lu", e); }
+                    catch (MEDDLY::error er) { violation("op-error","threw %s (%s:%u)", er.getName(), er.getFile(), er.getLine()); }
                 }
-                if (B->F==C->F) {
-                    if (!case_lazy(fmt_pair, op, (long)pi, (long)i, (long)j, 2)) return;
+                if (B->F==C->F && case_lazy(fmt_pair, op, (long)pi, (long)i, (long)j, 2)) {
                     dd_edge t(B->e[j]);
-                    bop->compute(A->e[i], t, t);
-                    if (t != C->e[e]) violation("wrong-result-alias", "with the result edge aliasing operand b: result differs from f%lu", e);
+                    try { bop->compute(A->e[i], t, t); if (t != C->e[e]) violation("wrong-result-alias", "with the result edge aliasing operand b: result differs from f%lu", e); }
+                    catch (MEDDLY::error er) { violation("op-error","threw %s (%s:%u)", er.getName(), er.getFile(), er.getLine()); }
                 }
-                if (A->F==B->F && i==j) {
-                    if (!case_lazy(fmt_pair, op, (long)pi, (long)i, (long)j, 3)) return;
-                    bop->compute(A->e[i], A->e[i], r);
-                    if (r != C->e[e]) violation("wrong-result-alias", "with both operands the same edge object: result differs from f%lu", e);
+                if (A->F==B->F && i==j && case_lazy(fmt_pair, op, (long)pi, (long)i, (long)j, 3)) {
+                    try { bop->compute(A->e[i], A->e[i], r); if (r != C->e[e]) violation("wrong-result-alias", "with both operands the same edge object: result differs from f%lu", e); }
+                    catch (MEDDLY::error er) { violation("op-error","threw %s (%s:%u)", er.getName(), er.getFile(), er.getLine()); }
                 }
             };
             if (pairs=="all") {
                 if (order=="rev") { for (unsigned long i=U; i-- > 0 && !ctx.stop;) for (unsigned long j=U; j-- > 0;) one(i,j); }
                 else for (unsigned long i=0;i<U && !ctx.stop;i++) { for (unsigned long j=0;j<U;j++) one(i,j); if (ctx.viol>ctx.maxviol && ctx.only<0 && ctx.upto<0) break; }
+            } else if (pairs=="famfam") {
+                for (unsigned long i : fam) { if (ctx.stop) break; for (unsigned long j : fam) one(i,j); if (ctx.viol>ctx.maxviol && ctx.only<0 && ctx.upto<0) break; }
             } else {
                 for (unsigned long i=0;i<U && !ctx.stop;i++) { for (unsigned long j : fam) one(i,j); if (ctx.viol>ctx.maxviol && ctx.only<0 && ctx.upto<0) break; }
                 for (unsigned long i : fam) { if (ctx.stop) break; for (unsigned long j=0;j<U;j++) one(i,j); if (ctx.viol>ctx.maxviol && ctx.only<0 && ctx.upto<0) break; }
@@ -184,15 +197,18 @@ static void run_unary(const std::map<std::string,std::string>& spec)
         if (!uop) continue;
         dd_edge r(C->F);
         for (unsigned long i=0;i<U;i++) {
-            if (!case_lazy(fmt_un, *ra, *rc, same, (long)i, 0)) continue;
             unsigned long e = ~i & MASK;
-            try { uop->compute(A->e[i], r); } catch (MEDDLY::error er) { violation("op-error","threw %s (%s:%u)", er.getName(), er.getFile(), er.getLine()); continue; }
-            if (r != C->e[e]) { Table x; read_eval(r,C->k,s,x); violation(tab_eq(C->k,x,C->table(e))?"noncanonical-result":"wrong-result","result reads [%s], expected [%s]", tab_str(x).c_str(), tab_str(C->table(e)).c_str()); }
-            if (i!=0 && i!=MASK) note_nontrivial(hmix(hmix(*ra,*rc)+same, i));
-            if (A->F==C->F) {
-                if (!case_lazy(fmt_un, *ra, *rc, same, (long)i, 1)) continue;
-                dd_edge t(A->e[i]); uop->compute(t,t);
-                if (t != C->e[e]) violation("wrong-result-alias","in-place complement differs from expected");
+            if (case_lazy(fmt_un, *ra, *rc, same, (long)i, 0)) {
+                try {
+                    uop->compute(A->e[i], r);
+                    if (r != C->e[e]) { Table x; read_eval(r,C->k,s,x); violation(tab_eq(C->k,x,C->table(e))?"noncanonical-result":"wrong-result","result reads [%s], expected [%s]", tab_str(x).c_str(), tab_str(C->table(e)).c_str()); }
+                } catch (MEDDLY::error er) { violation("op-error","threw %s (%s:%u)", er.getName(), er.getFile(), er.getLine()); }
+                if (i!=0 && i!=MASK) note_nontrivial(hmix(hmix(*ra,*rc)+same, i));
+            }
+            if (A->F==C->F && case_lazy(fmt_un, *ra, *rc, same, (long)i, 1)) {
+                try { dd_edge t(A->e[i]); uop->compute(t,t);
+                  if (t != C->e[e]) violation("wrong-result-alias","in-place complement differs from expected"); }
+                catch (MEDDLY::error er) { violation("op-error","threw %s (%s:%u)", er.getName(), er.getFile(), er.getLine()); }
             }
         }
         r.detach();
